@@ -23,7 +23,7 @@ ASSUMPTIONS = [
 ]
 BUDGET = {'quick': 8000, 'thorough': 200000}
 
-PERTURB = ['copy', 'permute', 'sym', 'leaf', 'addkey', 'subclass', 'num', 'dropkey', 'wrap', 'typedwrap', 'permute']
+PERTURB = ['copy', 'permute', 'sym', 'leaf', 'addkey', 'subclass', 'num', 'dropkey', 'wrap', 'typedwrap', 'permute', 'nc', 'lastleaf']
 KEYS = ['k', 'm', 'n', 0, 1]
 
 
@@ -35,12 +35,27 @@ def strategy(tier):
     scal = st.one_of(st.integers(-2, 3), st.sampled_from(['a', 'b', '', None, True, False, 0.5, 2.0, 1.0]),
                      st.just({'$missing': 1}), tup)
     return values.vdesc(max_leaves=6, keys=KEYS, objects=True, scalars=scal)
+  def canned(c):
+    """In 1 of 4 cases, append a sequence that builds equal-but-distinct twins followed by a one-leaf change."""
+    k = c.pop('canned')
+    n0 = len(c['base'])
+    if k == 1:      # same content under free dict keys in two insertion orders
+      c['perturb'] = c['perturb'][:2] + [{'src': 0, 'kind': 'typedwrap', 'arg': 1}]
+      m = n0 + len(c['perturb']) - 1
+      c['perturb'] += [{'src': m, 'kind': 'permute', 'arg': 0}, {'src': m, 'kind': 'lastleaf', 'arg': 0}]
+    elif k == 2:    # identity-compared objects in front of a difference
+      c['perturb'] = c['perturb'][:2] + [{'src': 0, 'kind': 'nc', 'arg': 1}]
+      m = n0 + len(c['perturb']) - 1
+      c['perturb'] += [{'src': m, 'kind': 'copy', 'arg': 0}, {'src': m, 'kind': 'lastleaf', 'arg': 0},
+                       {'src': m, 'kind': 'wrap', 'arg': 0}]
+    return c
   return st.sampled_from(['num', 'str']).flatmap(lambda tk: st.fixed_dictionaries({
+      'canned': st.sampled_from([0, 0, 0, 0, 1, 2]),
       'base': st.lists(base(tk), min_size=1, max_size=4),
       'perturb': st.lists(st.fixed_dictionaries({
           'src': st.integers(0, 7), 'kind': st.sampled_from(PERTURB), 'arg': st.integers(0, 5)}),
                           max_size=5),
-  }))
+  })).map(canned)
 
 
 def _perturb(d, kind, arg):
@@ -123,6 +138,39 @@ def _perturb(d, kind, arg):
     return conv(d)
   if kind == 'wrap':
     return [d] if arg % 2 else {'$d': [['k', d]]}
+  if kind == 'nc':
+    # objects whose == / != are by identity (use_symbolic_comparison=False), nested in the value
+    def conv(x):
+      if isinstance(x, list):
+        return [conv(v) for v in x]
+      if isinstance(x, dict):
+        if '$d' in x:
+          return {'$d': [[k, conv(v)] for k, v in x['$d']]}
+        if '$o' in x:
+          name = 'NC' if x['$o'] in ('P', 'Q', 'NC') else x['$o']
+          return {'$o': name, 'a': {k: conv(v) for k, v in x['a'].items() if name != 'NC' or k in ('x', 'y')}}
+        return x
+      return x
+    out = conv(d)
+    if out == d:
+      # no object to convert: put one in front of the other content
+      return {'$d': [['a', {'$o': 'NC', 'a': {'x': arg}}], ['z', d]]}
+    return out
+  if kind == 'lastleaf':
+    # change the LAST primitive leaf (the values in front of it stay equal)
+    count = {'n': 0}
+
+    def cnt(x):
+      if isinstance(x, list):
+        for v in x:
+          cnt(v)
+      elif isinstance(x, dict):
+        for v in (x.get('$d') and [kv[1] for kv in x['$d']]) or (list(x['a'].values()) if '$o' in x else []) or x.get('$t', []):
+          cnt(v)
+      else:
+        count['n'] += 1
+    cnt(d)
+    return _perturb(d, 'leaf', max(0, count['n'] - 1)) if count['n'] else d
   if kind == 'typedwrap':
     # a dict with str keys held by a field whose schema does not fix the keys
     if isinstance(d, dict) and '$d' in d and d['$d'] and all(isinstance(k, str) for k, _ in d['$d']):
